@@ -14,7 +14,7 @@ CHECKS = {
          "DESIGN.md §4 C01"),
  "C02": ("model_checking",
          "bounded-exhaustive enumeration of (type, value) states in both directions against google.protobuf, plus breadth-first enumeration of every re-encoding reachable with <=D spec-level rewrite operators (legality decided by the reference decoder)",
-         "Every universe case is encoded by betterproto and decoded by the reference and vice versa; for every single-unit type and value every alternative encoding within D rewrite operators (all permutations, packed/unpacked, every 2/3-way chunk split, mixed, non-minimal tag/length/value varints, 32-bit kinds carried in longer varints (missing sign extension, bits above bit 31, non-0/1 bools), duplicated singular scalars, earlier oneof siblings, unknown records at every gap, the same inside nested messages and map entries) that the reference accepts as the same message is decoded by betterproto and compared.",
+         "Every universe case is encoded by betterproto and decoded by the reference and vice versa; for every single-unit type and value every alternative encoding within D rewrite operators (all permutations, packed/unpacked, every 2/3-way chunk split, mixed, non-minimal tag/length/value varints, 32-bit kinds carried in longer varints (missing sign extension, bits above bit 31, non-0/1 bools), default-valued key / value fields of map entries left out or spelled out, duplicated singular scalars, earlier oneof siblings, unknown records at every gap, the same inside nested messages and map entries) that the reference accepts as the same message is decoded by betterproto and compared.",
          "trusts google.protobuf (upb) as the reference decoder and the rewrite operators' completeness for the property's list of legal alternatives",
          "DESIGN.md §4 C02"),
  "C09": ("model_checking",
@@ -44,12 +44,12 @@ CHECKS = {
          "DESIGN.md §4 C17"),
  "C07": ("model_checking",
          "explicit-state breadth-first search to a fixpoint over the complete internal state of a real message under a finite operation alphabet, against a last-writer-wins reference model",
-         "From every constructor (incl. the illegal two-member one) every operation of the alphabet (set each member to default/non-default, plain field, parse of every 0..2 member records in every order into the live instance, instance/class from_dict, copy, deepcopy, pickle, reads) is applied in every reachable state until no new state appears; in every state which_one_of, AttributeError on siblings, the wire tokens and the to_dict keys are compared with the model; after every copy/deepcopy/pickle edge each member is assigned on the copy (and on the original) and the other message must be unaffected. Members: int32, string, enum, message, bool, Timestamp, Duration, wrapper in three groups. Covers all finite histories over the alphabet; on a tree that breaks the invariant the search stops after the first violating level.",
+         "From every constructor (incl. the illegal two-member one) every operation of the alphabet (set each member to default/non-default, plain field, parse of every 0..2 member records in every order into the live instance, instance/class from_dict, copy, deepcopy, pickle, reads) is applied in every reachable state until no new state appears; in every state which_one_of, AttributeError on siblings, the wire tokens and the to_dict keys are compared with the model; after every copy/deepcopy/pickle edge each member is assigned on the copy (and on the original) and the other message must be unaffected. Members: int32, string, enum, message, bool, Timestamp, Duration, wrapper in three groups declared interleaved; a second message declares its members the plugin's pydantic way (optional=True) with one single-member group. Covers all finite histories over the alphabet; on a tree that breaks the invariant the search stops after the first violating level.",
          "state key = full __dict__ (no abstraction); model = dict group -> last set member",
          "DESIGN.md §4 C07"),
  "C14": ("model_checking",
          "explicit-state breadth-first search to a fixpoint over the complete internal state of a real message; every observer and copy operation in every reachable state, edge invariant by differential replay",
-         "82 initial states (13 values x constructor / setattr / in-place / parse / parse-with-unknown-fields / from_dict, plus lazily built ones whose parents were only ever read) x 26 observers and copy, deepcopy, pickle, closed under composition, plus ALL observer sequences of length <=2 (3) without state merging (hidden class-level state): on every edge the observable projection (bytes, values, presence, oneof, element types) must equal that of a separate replay without the operation; copies must be equal, byte-identical and (deep copies) independent under 12 mutators, including decoding further input into the copy.",
+         "82 initial states (13 values x constructor / setattr / in-place / parse / parse-with-unknown-fields / from_dict, plus lazily built ones whose parents were only ever read) x 27 observers (incl. == against messages with another oneof selection) and copy, deepcopy, pickle, closed under composition, plus ALL observer sequences of length <=2 (3) without state merging (hidden class-level state): on every edge the observable projection (bytes, values, presence, oneof, element types) must equal that of a separate replay without the operation; copies must be equal, byte-identical and (deep copies) independent under 12 mutators, including decoding further input into the copy.",
          "state key = full __dict__; one message class covering nested, optional, oneof, map-of-message, repeated, Timestamp, wrapper and enum fields",
          "DESIGN.md §4 C14"),
  "C15": ("model_checking",
@@ -58,7 +58,7 @@ CHECKS = {
          "values outside the enumerated domain (about 3e17 microsecond values) are argued structurally: integer arithmetic without further branch points",
          "DESIGN.md §4 C15"),
  "C19": ("model_checking",
-         "exhaustive enumeration of all legal proto identifiers up to length 6 (7) over {a,b,A,B,0,1,_} plus keywords, builtins and a corpus, each pushed through the naming functions and a real one-field message class",
+         "exhaustive enumeration of all legal proto identifiers up to length 6 (7) over {a,b,A,B,0,1,_} plus keywords, builtins, the attribute names of Message in five spellings and a corpus, each pushed through the naming functions and a real one-field message class",
          "For every identifier the four pythonize_* functions must return valid non-keyword identifiers and be idempotent, and a real message class with the field named as the plugin would name it must map its camelCase key, its snake_case key and the original proto name back to the field through both forms of from_dict with the value intact; all pairs of identifiers (length <=4 / 5) that are equal up to case and underscores are also bound as two fields of ONE message and every key must reach its own field (where derived keys of the two fields coincide, each python field name must still reach its own field).",
          "alphabet of 7 characters; protoc's json_name is recorded, not required (not in the property's key list)",
          "DESIGN.md §4 C19"),
@@ -94,7 +94,7 @@ CHECKS = {
          "DESIGN.md §4 C03"),
  "C13": ("exploration",
          "exhaustive enumeration of package topologies: every ordered pair of the 15 package paths of depth 0..3 over {a,b} (each compiled alone), 7 packages whose names are textual prefixes of a neighbour or live under google.* against 5 partners, all packages referencing each other at once, and well-known types from every depth, compiled with the real plugin, imported, and checked by class identity",
-         "For every program the resolved type hint of each referring field (singular, repeated, map value, oneof member) and each rpc handler's request/reply type must BE the class generated for the target (message, nested message, enum, nested enum) - also when the referrer has plain fields named like the module aliases of the target -, a message built through the references must round-trip through the wire and JSON, referrers whose only references are rpc input/output types must work through __mapping__ and real calls, and well-known types must resolve to the bundled classes.",
+         "For every program the resolved type hint of each referring field (singular, repeated, map value, oneof member) and each rpc handler's request/reply type must BE the class generated for the target (message, nested message, enum, nested enum, types nested in a lower-case-led message such as iOSDevice) - also when the referrer has plain fields named like the module aliases of the target -, a message built through the references must round-trip through the wire and JSON, referrers whose only references are rpc input/output types must work through __mapping__ and real calls, and well-known types must resolve to the bundled classes.",
          "package path alphabet {a,b}; the schedule/import order is the natural one",
          "DESIGN.md §4 C13"),
  "C18": ("translation_validation",
@@ -104,7 +104,7 @@ CHECKS = {
          "DESIGN.md §4 C18"),
  "C11": ("exploration",
          "exhaustive enumeration of (method, request tuple, response-stream length, source kind, handler outcome) and of all 64 stub-level/call-level timeout/deadline/metadata combinations, each executed as a real rpc through the generated stub, grpclib's in-process channel and the generated server base",
-         "Services generated by the real plugin cover all four cardinalities, re-cased method names, cross-package, nested and well-known request/response types and a second service sharing a method name. For every case exactly one handler - the right one - must run with requests equal and in order, the caller must receive the responses equal and in order, a method that is not overridden must answer UNIMPLEMENTED, a handler's GRPCError status and message must reach the caller, three calls on ONE stub 3000 s apart (fake clock inside grpclib.metadata) must each get the full stub-level timeout and the shrinking stub-level deadline, of two calls in flight on one stub the survivor of a cancellation must finish intact, and the server must observe exactly the metadata pairs (mapping, pairs, pairs with a repeated key and a -bin value) and the deadline the precedence rule (call-level over stub-level) predicts.",
+         "Services generated by the real plugin cover all four cardinalities, re-cased method names, cross-package, nested and well-known request/response types and a second service sharing a method name. For every case exactly one handler - the right one - must run with requests equal and in order, the caller must receive the responses equal and in order, a method that is not overridden must answer UNIMPLEMENTED, a handler's GRPCError status and message must reach the caller, 400 x 40 kB each way must pass through every streaming cardinality, deprecated rpcs must work, three calls on ONE stub 3000 s apart (fake clock inside grpclib.metadata) must each get the full stub-level timeout and the shrinking stub-level deadline, of two calls in flight on one stub the survivor of a cancellation must finish intact, and the server must observe exactly the metadata pairs (mapping, pairs, pairs with a repeated key and a -bin value) and the deadline the precedence rule (call-level over stub-level) predicts.",
          "natural asyncio schedule; deadline observed as time remaining with a 20 s tolerance (configured deadlines 50 s .. 10000 s)",
          "DESIGN.md §4 C11"),
 }
